@@ -34,13 +34,21 @@ class ScalarShape(NdContract):
         if name == "numpy.dot" and len(args) == 2 and all(is_nd(a) for a in args) and self.weighted:
             kinds = [getattr(a, "wdtype", None) for a in args]
             if all(k is not None for k in kinds):          # both histories known: decided either way (an operand of unknown history generates no obligation)
-                eng.oblige(st, "weighted_sum_is_not_accumulated_in_the_callers_possibly_narrow_integer_dtype", BoolVal("float64" in kinds), "dtype", node)
+                eng.oblige(st, "weighted_sum_is_accumulated_in_float64_not_in_the_callers_possibly_narrow_dtype", BoolVal("float64" in kinds), "dtype", node)
         r = super().on_call(eng, st, node, name, recv, args, kwargs)
         if name == "astype" and is_nd(r) and "astype(float)" in str(r.name):
             r.wdtype = "float64"
         if name == "numpy.ones" and is_nd(r):
             r.wdtype = "float64"
         return r
+
+    def on_attr(self, eng, st, node, base, attr):
+        # `arr.dtype.kind`: the caller's dtype is arbitrary, so its kind is a free string (both outcomes of a test on it are explored)
+        if is_nd(base) and getattr(base, "wdtype", None) == "user" and attr == "dtype":
+            return Abstract("dtype_of", of=base)
+        if isinstance(base, Abstract) and base.tag == "dtype_of" and attr == "kind":
+            return z3.String("dtype_kind_of_" + str(base.of.name).split(".")[0])
+        return super().on_attr(eng, st, node, base, attr)
 
     def on_compare(self, eng, st, node, op, a, b):
         r = super().on_compare(eng, st, node, op, a, b)
@@ -64,13 +72,25 @@ class ScalarShape(NdContract):
         import fairlearn.metrics as fm
         from ..pyvc.util import model_int
         f = getattr(fm, self.function)
-        if "narrow_integer_dtype" in ob.name:
-            # the failed obligation is about dtype width, not about n: replay with the narrowest weights numpy offers
+        if "narrow_dtype" in ob.name:
+            # the failed obligation is about dtype width, not about n: replay with the narrowest integer and floating-point weights numpy offers
             yp, w = np.ones(100, dtype=np.uint8), np.full(100, 3, dtype=np.uint8)
             try:
                 got = float(f(yp, yp, sample_weight=w))
             except Exception as ex:          # noqa: BLE001
                 got = f"{type(ex).__name__}: {ex}"[:80]
+            if got == 1.0:
+                rng = np.random.default_rng(0)
+                yp16, w16 = rng.integers(0, 2, 5000).astype(np.uint8), rng.integers(1, 4, 5000).astype(np.float16)
+                want = float(np.dot(yp16.astype(float), w16.astype(float)) / w16.astype(float).sum())
+                try:
+                    got16 = float(f(yp16, yp16, sample_weight=w16))
+                except Exception as ex:          # noqa: BLE001
+                    got16 = f"{type(ex).__name__}: {ex}"[:80]
+                return {"confirmed": not (isinstance(got16, float) and abs(got16 - want) <= 1e-9), "key": f"C14:{self.function}:narrow-weight-dtype",
+                        "what": f"{self.function} on 5000 rows (seed 0) with weights in {{1,2,3}} stored as float16 = {got16!r}; the weighted rate is {want!r}",
+                        "replay": {"function": self.function, "y_pred": "default_rng(0).integers(0,2,5000).astype(uint8)", "sample_weight": "then .integers(1,4,5000).astype(float16)",
+                                   "got": got16, "expected": want}}
             return {"confirmed": got != 1.0, "key": f"C14:{self.function}:narrow-weight-dtype",
                     "what": f"{self.function}(ones(100, uint8), ones(100, uint8), sample_weight=full(100, 3, uint8)) = {got!r}; every row is selected, the weighted rate is 1.0",
                     "replay": {"function": self.function, "y_pred": "np.ones(100, dtype=np.uint8)", "sample_weight": "np.full(100, 3, dtype=np.uint8)", "got": got}}
